@@ -1,4 +1,8 @@
-(* C09 - model of argument / return-value capture and display.
+(* C09 - LEGACY model: argument capture and display as the code was BEFORE the fix: commits for
+   len98 / overflow / c64 (proposed-fixes/C09-*.diff).  Kept only to state what was wrong
+   (Properties_C09: ..._legacy_refuted).  The model of the current code is UV.C09.Model.
+
+   C09 - model of argument / return-value capture and display.
 
    Writer  (libmcount/record.c, arch/x86_64/mcount-support.c):
      mcount_get_register_arg, mcount_get_stack_arg, mcount_get_struct_arg, mcount_arch_get_arg,
@@ -8,8 +12,7 @@
      read_task_arg, read_task_args (framing recomputed from the stream), get_argspec_string
      (what `uftrace replay` prints), and the framing of a whole task stream.
 
-   The model describes the code AS IT IS (after the fix: commits for len98 / overflow / c64; the
-   code before them is UV.C09.Legacy).  Memory is not a heap: the argument
+   The model describes the code AS IT IS (bugs included).  Memory is not a heap: the argument
    buffer of one frame is the sequence of bytes stored so far ([done] up to the write pointer and
    [ahead] beyond it) over a background of [fill] bytes; [hi] is one past the highest argbuf
    offset stored to.  The memory-region cache is an oracle: an address is readable iff it is the
@@ -180,17 +183,16 @@ Definition s_lt : list N := [60].   Definition s_gt : list N := [62].
 
 (* ------------------------------------------------------------------ the string copy loop of save_to_argbuf *)
 Definition dots (i : N) (dst : list N) : list N := takeN (i - 3) dst ++ [46; 46; 46; 0].
-(* src: the bytes at str[0], str[1], ... (a C string: ends with 0); dst: the characters so far (dst[0..i)) *)
+(* src: the bytes at str[0], str[1], ... (a C string: ends with 0); dst: bytes stored so far (dst[0..i)) *)
 Fixpoint copy_loop (src : list N) (i bound : N) (dst : list N) (len : N) : list N * N :=
   if bound <=? i then (dst, len) else
   match src with
   | [] => (dst, len)
   | c :: rest =>
       let dst1 := dst ++ [c] in
-      let dst2 := if (i =? ARG_STR_MAX) && negb (c =? 0) then dots i dst1 else dst1 in    (* truncate long string *)
+      let dst2 := if i =? ARG_STR_MAX then dots i dst1 else dst1 in
       if nthN dst2 i =? 0 then (dst2, len) else copy_loop rest (i + 1) bound dst2 (len + 1)
   end.
-(* dst is what the loop computes for dst[0], dst[1], ...; only dst[i] with i + 2 < bound is stored *)
 
 (* ------------------------------------------------------------------ save_to_argbuf *)
 Definition MAX_SIZE : N := ARGBUF_SIZE - 4.
@@ -219,16 +221,13 @@ Definition emit (fill : N) (st : mst) (val : list N) (w : list N) (adv : N) : ms
 Definition bad_ptr_text (a : N) : list N := s_lt ++ hexp a ++ s_gt.        (* snprintf "<%p>" *)
 Definition null_str : list N := [78; 85; 76; 76].
 
-(* `total_size += n; break;`  ("just to make it fail") *)
-Definition refuse (st : mst) (n : N) : mst :=
-  {| m_val := m_val st; m_total := m_total st + n; m_hi := m_hi st; m_done := m_done st;
-     m_ahead := m_ahead st; m_stop := true; m_unmodelled := m_unmodelled st |}.
-
 Definition step (fill : N) (inp : inputs) (is_ret : bool) (st : mst) (s : spec) : mst :=
   if m_stop st then st else
   if negb (Bool.eqb is_ret (s_idx s =? 0)) then st else
   let structp := fmt_eqb (s_fmt s) FStruct in
-  if structp && (MAX_SIZE <? m_total st + s_size s) then refuse st (s_size s)
+  if structp && (MAX_SIZE <? m_total st + s_size s) then
+    {| m_val := m_val st; m_total := m_total st + s_size s; m_hi := m_hi st; m_done := m_done st;
+       m_ahead := m_ahead st; m_stop := true; m_unmodelled := m_unmodelled st |}
   else
   (* ctx->val.p = ptr for structs: the pointer value itself is never stored, val keeps its bytes
      in the model (a struct is never followed by a use of the stale val.p: get_arg overwrites val.i) *)
@@ -241,23 +240,19 @@ Definition step (fill : N) (inp : inputs) (is_ret : bool) (st : mst) (s : spec) 
                m_ahead := m_ahead st; m_stop := true; m_unmodelled := true |}
   | Some (sw, val) =>
       if is_strfmt (s_fmt s) then
-        if MAX_SIZE <? m_total st + 4 then refuse st 4 else       (* even an empty string takes 4 bytes *)
         let p0 := of_le (takeN 8 val) in
         let p := match s_fmt s with
                  | FStdStr => match assoc p0 (wrds inp) with Some w => w | None => p0 end
                  | _ => p0 end in
-        if p =? 0 then
-          if MAX_SIZE <? m_total st + ALIGN (4 + 2) 4 then refuse st (ALIGN (4 + 2) 4)
-          else emit fill st val ([4; 0] ++ null_str) (ALIGN (4 + 2) 4)
+        if p =? 0 then emit fill st val ([4; 0] ++ null_str) (ALIGN (4 + 2) 4)
         else
           let src := if readable inp p
                      then match assoc p (strs inp) with Some c => c ++ [0] | None => [0] end
                      else bad_ptr_text p ++ [0] in
           let bound := (MAX_SIZE + U32 - m_total st mod U32) mod U32 in
           let '(dst, len) := copy_loop src 0 bound [] 0 in
-          emit fill st val (le_bytes 2 len ++ takeN (bound - 2) dst) (ALIGN (len + 2) 4)
+          emit fill st val (le_bytes 2 len ++ dst) (ALIGN (len + 2) 4)
       else if structp then emit fill st val sw (ALIGN (s_size s) 4)
-      else if MAX_SIZE <? m_total st + ALIGN (s_size s) 4 then refuse st (ALIGN (s_size s) 4)   (* before the copy *)
       else emit fill st val (takeN (ALIGN (s_size s) 4) val) (ALIGN (s_size s) 4)
   end.
 
@@ -412,7 +407,7 @@ Definition show_one (syms : symtab) (s : spec) (data : list N) : list N * N :=
       ((if (slen =? 4) && list_eqb body [255; 255; 255; 255] then null_str
         else quote ++ show_str body ++ quote) ++ (match s_fmt s with FStdStr => [115] | _ => [] end),
        ALIGN (slen + 2) 4)
-  | FChar => (squote ++ escaped_char (nthN data 0) ++ squote, ALIGN size 4)
+  | FChar => (squote ++ escaped_char (nthN data 0) ++ squote, ALIGN 1 4)
   | FFloat => ([63], ALIGN size 4)                       (* "%#f" rendering is not modelled *)
   | FPtr =>
       (match find_sym syms v64 with
@@ -481,8 +476,6 @@ Record observation := {
   o_img_exit : list N;            (* same after the exit hook (buffer refilled in between) *)
   o_cut_entry : option N;         (* Some n: the driver found argbuf[4 .. 4+n) equal to the payload in o_stream *)
   o_cut_exit : option N;          (*         and left these n bytes out of o_img_entry / o_img_exit *)
-  o_hi_entry : N;                 (* one past the last byte of the 2 KiB window that differs from the fill *)
-  o_hi_exit : N;
   o_stream : list N;              (* the four records of the call as written to the shm buffer *)
   o_args_text : list N;           (* replay: text behind the name *)
   o_ret_text : list N             (* replay: text behind "}" *)
@@ -496,8 +489,6 @@ Definition model_call (syms : symtab) (c : call) : observation :=
   {| o_img_entry := if c_has_args c then rstrip (c_fill c) (image (c_fill c) se) else [];
      o_img_exit := if c_has_ret c then rstrip (c_fill c) (image (c_fill c) sx) else [];
      o_cut_entry := None; o_cut_exit := None;
-     o_hi_entry := if c_has_args c then lenN (rstrip (c_fill c) (image (c_fill c) se)) else 0;
-     o_hi_exit := if c_has_ret c then lenN (rstrip (c_fill c) (image (c_fill c) sx)) else 0;
      o_stream := enc_rec 0 (c_t0 c) UFTRACE_ENTRY 0 (c_addr c) pe ++
                  enc_rec 0 (c_t1 c) UFTRACE_ENTRY 1 (c_child c) None ++
                  enc_rec 0 (c_t2 c) UFTRACE_EXIT 1 (c_child c) None ++
@@ -552,7 +543,7 @@ Definition accept (s : spec) (a : aval) : list (list N) :=
       | FChar => let c := v mod 256 in [squote ++ escaped_char c ++ squote; squote ++ [c] ++ squote]
       | FStruct => []
       | FStr | FStdStr | FFloat => []
-      | _ =>
+      | f =>
           [sdec bits u; dec u; (if u =? 0 then [48] else hexp u); (if u =? 0 then [48] else 48 :: oct u)]
       end
   | AStr str =>
@@ -646,10 +637,7 @@ Definition AStkAt (inp : inputs) (k : N) : aval := AInt (nthN (stk inp) (k - 1))
 Definition ARetAt (inp : inputs) (k : N) : aval := AInt (nthN (rets inp) k).
 Record tcase := { t_call : call; t_obs : observation; t_aargs : list aval; t_aret : list aval }.
 Definition t_agrees (syms : symtab) (t : tcase) : bool := agrees syms (t_call t, t_obs t).
-(* the values are shown, and nothing was stored outside the frame's argument buffer *)
-Definition t_ok (t : tcase) : bool :=
-  ok_call (judge_of (t_call t) (t_obs t) (t_aargs t) (t_aret t)) &&
-  (o_hi_entry (t_obs t) <=? ARGBUF_SIZE) && (o_hi_exit (t_obs t) <=? ARGBUF_SIZE).
+Definition t_ok (t : tcase) : bool := ok_call (judge_of (t_call t) (t_obs t) (t_aargs t) (t_aret t)).
 
 (* run-length coded byte strings in case files: v < 256 is a byte, otherwise (v / 256) copies of v mod 256 *)
 Definition unrle (l : list N) : list N :=
